@@ -1,0 +1,11 @@
+//go:build verif
+
+// Machine-checked contract of the clock the time-driven operators read (C16): nanoseconds elapsed since a fixed origin
+// (the monotonic reading of time.Since), so that differences of two readings are durations. Comments only.
+
+package xtime
+
+//@ func NowNanoMonotonic
+//@   props C16
+//@   track call.*
+//@   ensures [elapsed-nanoseconds-since-the-package-origin|C16] count(call.ANY) == 1 && called(call.Since) && arg(call.Since, 0) == global_startTime && result == res(call.Since)
